@@ -211,7 +211,8 @@ def restore_case(repo, orig, case, workdir, idx):
         snaps = sorted(n for n in set(orig) | set(damaged) if n.startswith('snapshots/'))
         for j, n in enumerate(snaps):
             good = orig.get(n) or damaged.get(n) or b''
-            others = [orig[m] for m in snaps if m != n and m in orig]
+            # (foreign = the bytes of a snapshot with ANOTHER name: a copy of the object this name denotes would be a valid entry)
+            others = [orig[m] for m in snaps if m in orig and m.rpartition('-')[2] != n.rpartition('-')[2]]
             bad = [b'', good[:len(good) // 2], others[(idx + j) % len(others)] if others else good[:-1]][(idx + j) % 3]
             f = os.path.join(cache, n)
             os.makedirs(os.path.dirname(f), exist_ok=True)
